@@ -14,7 +14,7 @@ fn hex(b: &[u8], upper: bool) -> String {
 ///        pat_kind  0 none | 1 raw text (bytes) | 2 prefix bytes | 3 prefix bytes / mask bytes
 ///      then [has_random] peer-ip-bytes random-bytes
 /// out: [engine verdict on the peer as given, verdict of evaluate_connection_rules]  (0 allow, 1 deny)
-pub fn eval(toks: Vec<Tok>) -> Vec<Tok> {
+fn build_rules(toks: &[Tok]) -> Vec<Rule> {
     let n = toks[0][0] as usize;
     let upper = toks[0][1] == 1;
     let mut rules = vec![];
@@ -43,6 +43,12 @@ pub fn eval(toks: Vec<Tok>) -> Vec<Tok> {
             action: if h[0] == 0 { RuleAction::Allow } else { RuleAction::Deny },
         });
     }
+    rules
+}
+
+pub fn eval(toks: Vec<Tok>) -> Vec<Tok> {
+    let n = toks[0][0] as usize;
+    let rules = build_rules(&toks);
     let base = 1 + 4 * n;
     let has_cr = toks[base][0] == 1;
     let peer = ip_from_bytes(if toks[base + 1].len() == 4 { 4 } else { 6 }, &toks[base + 1]);
@@ -64,4 +70,71 @@ pub fn eval(toks: Vec<Tok>) -> Vec<Tok> {
     let c = ctx::make(settings, crate::ctxutil::basic_hosts(), None).unwrap();
     let v2 = !conn_rules::admitted(&c, Some(peer), cr_opt) as u128;
     vec![vec![v1, v2]]
+}
+
+/// The rules at the real listener (`Core::listen` on a loopback port): the peer is 127.0.0.1, the client random is the one
+/// of the ClientHello the TLS client really sent (read off the wire).
+/// in : [nrules, upper_hex, proto (1 = TLS, 3 = QUIC)] then the rule tokens of c04_eval
+/// out: [996] | three times: [admitted (the handshake completed and a health-check request was answered)] client-random (TLS only)
+pub fn front(toks: Vec<Tok>) -> Vec<Tok> {
+    use std::time::Duration;
+    let quic = toks[0].get(2).copied().unwrap_or(1) == 3;
+    let rules = build_rules(&toks);
+    let rt = tokio::runtime::Builder::new_multi_thread().worker_threads(2).enable_all().build().unwrap();
+    rt.block_on(async move {
+        let make = move |addr: std::net::SocketAddr| {
+            use trusttunnel::settings::{Http2Settings, QuicSettings};
+            Settings::builder()
+                .listen_address(addr)
+                .unwrap()
+                .listen_protocols(ListenProtocolSettings {
+                    http1: Some(Http1Settings::builder().build()),
+                    http2: Some(Http2Settings::builder().build()),
+                    quic: if quic { Some(QuicSettings::builder().build()) } else { None },
+                })
+                .rules_engine(RulesEngine::from_config(RulesConfig { rule: rules.clone() }))
+                .build()
+                .unwrap()
+        };
+        let Some(ep) = crate::front::start(make, crate::ctxutil::basic_hosts, None).await else {
+            return vec![vec![996]];
+        };
+        if quic {
+            let mut ok = 0u128;
+            if let Some(mut c) = crate::front::H3Client::connect(ep.addr, "localhost").await {
+                let hs = vec![(b":method".to_vec(), b"CONNECT".to_vec()), (b":authority".to_vec(), b"_check".to_vec()), (b"user-agent".to_vec(), b"verif".to_vec())];
+                if let Some(id) = c.request(&hs, false) {
+                    c.drive(Duration::from_secs(3), |x| x.streams[&id].headers.is_some() || x.is_shut()).await;
+                    ok = (c.streams[&id].status() == 200) as u128;
+                }
+                c.close();
+            }
+            return vec![vec![ok], vec![], vec![ok], vec![], vec![ok], vec![]];
+        }
+        use tokio::io::{AsyncReadExt, AsyncWriteExt};
+        // three connections, each with the random its ClientHello happens to carry
+        let mut out = vec![];
+        for _ in 0..3 {
+            let (tls, wire) = crate::front::tls_connect_tap(ep.addr, "localhost", &[b"http/1.1"]).await;
+            let mut ok = 0u128;
+            if let Some(mut s) = tls {
+                let _ = s.write_all(b"CONNECT _check HTTP/1.1\r\nHost: x\r\n\r\n").await;
+                let mut acc = vec![];
+                let mut buf = [0u8; 1024];
+                while !acc.windows(4).any(|w| w == b"\r\n\r\n") {
+                    match tokio::time::timeout(Duration::from_secs(3), s.read(&mut buf)).await {
+                        Ok(Ok(n)) if n > 0 => acc.extend_from_slice(&buf[..n]),
+                        _ => break,
+                    }
+                }
+                ok = acc.starts_with(b"HTTP/1.1 200") as u128;
+            }
+            let wire = wire.lock().unwrap().clone();
+            // record header (5) + handshake header (4) + version (2), then the 32 bytes of the random
+            let random = if wire.len() >= 43 && wire[0] == 0x16 && wire[5] == 1 { wire[11..43].to_vec() } else { vec![] };
+            out.push(vec![ok]);
+            out.push(tok(&random));
+        }
+        out
+    })
 }
